@@ -54,8 +54,8 @@ SNIPPETS = [
     ("'_aux'(s14a).\n'_aux'(s14b).\nr(X) :- '_aux'(X).\n", {('_aux', 1): ['rows', [['s14a'], ['s14b']], None], ('r', 1): ['call', '_aux', 1]}),
     ("p_1.\np_1(s11a).\nq_2(s11b).\n", {('p_1', 0): ['rows', [[]], None], ('p_1', 1): ['rows', [['s11a']], None], ('q_2', 1): ['rows', [['s11b']], None]}),
 ]
-NAMES = [('_aux', 1), ('rp', 1), ('p_1', 0), ('p_1', 1), ('q_2', 1), ('is_a', 1), ('is_a', 2), ('my_long_name', 2), ('p', 0), ('p', 1), ('p', 2), ('p', 3), ('q', 2), ('r', 1), ('main', 1), ('sub', 1), ('zz', 1), ('q', 1), ('atom', 1), ('query', 2), ('unify', 2), ('sub', 0)]
-REG_TARGETS = [('_aux', 1), ('rp', 1), ('p_1', 0), ('q_2', 1), ('is_a', 1), ('is_a', 1), ('my_long_name', 2), ('p', 1), ('p', 2), ('sub', 1), ('zz', 1), ('p', 0), ('r', 1), ('atom', 1), ('unify', 2), ('q', 2), ('p', 3)]
+NAMES = [('once', 1), ('_aux', 1), ('rp', 1), ('p_1', 0), ('p_1', 1), ('q_2', 1), ('is_a', 1), ('is_a', 2), ('my_long_name', 2), ('p', 0), ('p', 1), ('p', 2), ('p', 3), ('q', 2), ('r', 1), ('main', 1), ('sub', 1), ('zz', 1), ('q', 1), ('atom', 1), ('query', 2), ('unify', 2), ('sub', 0)]
+REG_TARGETS = [('once', 1), ('_aux', 1), ('rp', 1), ('p_1', 0), ('q_2', 1), ('is_a', 1), ('is_a', 1), ('my_long_name', 2), ('p', 1), ('p', 2), ('sub', 1), ('zz', 1), ('p', 0), ('r', 1), ('atom', 1), ('unify', 2), ('q', 2), ('p', 3)]
 ASSERT_TARGETS = [('rp', 1), ('is_a', 1), ('p', 1), ('p', 2), ('sub', 1), ('p', 0), ('r', 1), ('q', 2), ('atom', 1), ('p', 3), ('main', 1)]
 RESERVED = {'variable', 'atom', 'functor', 'functor1', 'functor2', 'functor3', 'listpair', 'makelist', 'ATOM_NIL', 'unify', 'match_dynamic', 'query', 'True', 'False', '__builtins__'}
 _CODE = None
@@ -283,6 +283,8 @@ def execute(plan):
 
     def readback():
         for key in NAMES:
+            if key == ('once', 1) and not m.defs.get(key):
+                continue        # the builtin once/1 itself is not read back, only a registration that replaces it
             vs = [yp.variable() for _ in range(key[1])]
             try:
                 got = []
